@@ -261,6 +261,7 @@ fn observe_resolve(g: &Graph) -> String {
         Err(SlocGuardError::ExtendsTooDeep { depth, chain, .. }) => format!("err too-deep {depth} {}", show_chain(&chain)),
         Err(SlocGuardError::CircularExtends { chain }) => format!("err circular {}", show_chain(&chain)),
         Err(SlocGuardError::Config(m)) if m.contains("must be the first element") => "err reset-position".to_string(),
+        Err(SlocGuardError::Config(m)) if m.contains("must be a string") => "err bad-extends".to_string(),
         Err(SlocGuardError::Config(m)) if m.contains("Unknown preset") => format!("err unknown-preset {}", enc(m.split('\'').nth(1).unwrap_or(""))),
         Err(e) => format!("err other {}", e.to_string().replace(' ', "_")),
     }
@@ -285,6 +286,9 @@ fn oracle(g: &Graph, observed: &str) -> Option<String> {
         order.push(cur);
         if order.len() > 11 {
             return if observed.starts_with("err too-deep") { None } else { Some(format!("chain of {} files accepted or misreported: {observed}", order.len())) };
+        }
+        if ["extends", "extends_sha256"].iter().any(|k| v.get(k).is_some_and(|x| !x.is_str())) {
+            return if observed == "err bad-extends" { None } else { Some(format!("a non-string extends was not rejected: {observed}")) };
         }
         match v.get("extends").and_then(Value::as_str) {
             Some(e) if e.starts_with("preset:") => {
